@@ -42,6 +42,12 @@ class Gen:
         self.r, self.arch, self.c04 = rng, arch, c04
         self.ops = ["init %s %s" % (arch, "-" if init_base is None else "%x" % init_base)]
         self.nl, self.ns, self.bound = 0, 1, set()
+        if c04:
+            # all user sections first: `.addrtab` is created implicitly by the first patchable jmp/call and must not be
+            # mistaken for a user section by a later `section <id>`
+            for _ in range(rng.choice((0, 0, 1, 2, 3))):
+                self.ops.append("newsection %d %d" % (rng.choice((1, 4, 8, 16, 64)), rng.choice((0, 0, 1, -1, 5, 2147483647))))
+                self.ns += 1
 
     def label(self, allow_new=True):
         if self.nl == 0 or (allow_new and self.r.random() < 0.15 and self.nl < 8):
@@ -110,7 +116,7 @@ class Gen:
             self.ops.append("elabel %d %d" % (self.label(), r.choice((0, 4, 8, 8, 2, 1) if self.arch != "x86" else (0, 4, 4, 2, 1, 8))))
         elif k < 0.85:
             self.ops.append("edelta %d %d %d" % (self.label(), self.label(), r.choice((0, 1, 2, 4, 8))))
-        elif k < 0.89 and self.ns < 4:
+        elif k < 0.89 and self.ns < 4 and not self.c04:
             self.ops.append("newsection %d %d" % (r.choice((0, 1, 4, 8, 16, 64, 4096)), r.choice((0, 0, 1, -1, 5, 2147483647, -2147483648))))
             self.ns += 1
         elif k < 0.96 and self.ns > 1:
@@ -119,7 +125,7 @@ class Gen:
             self.ops.append("align %d" % r.choice((4, 8, 16, 64)))
         else:
             self.ops.append(r.choice(("flatten", "resolve", "bind 99", "jmp jmp d 99" if self.arch != "a64" else "a64 b 99 0",
-                                      "elabel 99 8", "section 9", "newsection 3 0", "align 3", "elabel 0 3")))
+                                      "elabel 99 8", "section 9", "newsection 3 0" if not self.c04 else "align 5", "align 3", "elabel 0 3")))
 
     def finish(self, base, bind_rest=0.85):
         for l in range(self.nl):
@@ -251,8 +257,15 @@ def judge(progs, answers):
 def shrink(h, prog, pred):
     head, body, tl = prog[:1], prog[1:-4], prog[-4:]
 
-    def fails(b):
-        p = head + b + tl
+    keep_sections = any(l.startswith(("jmpabs", "a64abs")) for l in body)   # section ids must not slide onto .addrtab
+    idx = [i for i, l in enumerate(body) if not (keep_sections and l.startswith("newsection"))]
+
+    def build(sel):
+        ss = set(sel)
+        return [l for i, l in enumerate(body) if i in ss or (keep_sections and l.startswith("newsection"))]
+
+    def fails(sel):
+        p = head + build(sel) + tl
         impl, rc, err = vlib.run_lines([str(h)], p)
         if rc != 0:
             return pred("crash")
@@ -261,9 +274,9 @@ def shrink(h, prog, pred):
         v = judge([p], [impl])
         return bool(v) and pred(v[0])
 
-    if not fails(body):
+    if not fails(idx):
         return prog
-    return head + vlib.ddmin(body, fails, max_tests=250) + tl
+    return head + build(vlib.ddmin(idx, fails, max_tests=250)) + tl
 
 
 def check_programs(res, pid, h, progs, broken):
